@@ -11,6 +11,7 @@ type aTx struct {
 	Accts   []int `json:"accts"`
 	Loaded  []int `json:"loaded"`
 	Vote    bool  `json:"vote"`
+	V0      bool  `json:"v0"`
 	Failed  bool  `json:"failed"`
 	Nometa  bool  `json:"nometa"`
 	Dframes int   `json:"dframes"`
@@ -61,7 +62,7 @@ func (e aEpoch) spec(seed int64, fanout int) fixture.EpochSpec {
 					// signature section (the indexers read the first signature from the first frame)
 					pad = 150
 				}
-				es.Txs = append(es.Txs, fixture.TxSpec{SigID: t.Sig, Accounts: t.Accts, Loaded: t.Loaded, Vote: t.Vote, Failed: t.Failed,
+				es.Txs = append(es.Txs, fixture.TxSpec{SigID: t.Sig, Accounts: t.Accts, Loaded: t.Loaded, Vote: t.Vote, V0: t.V0, Failed: t.Failed,
 					NoMeta: t.Nometa, DataFrames: t.Dframes, MetaFrames: t.Mframes, Pad: pad, MetaPad: aMetaPadBytes[t.Mpad]})
 			}
 			bs.Entries = append(bs.Entries, es)
